@@ -18,6 +18,7 @@ impl Monitor for C02 {
     fn gens(&self, tier: Tier) -> Vec<Gen> {
         vec![
             gen("valid", tier.pick(40_000, 3_000_000, 60)),
+            gen("valid-rfu", tier.pick(10_000, 500_000, 20)),
             gen("bitflip-all", tier.pick(1_500, 60_000, 2)),
             gen("targeted", tier.pick(60_000, 4_000_000, 60)),
             gen("resize", tier.pick(20_000, 1_000_000, 20)),
@@ -52,6 +53,17 @@ impl Monitor for C02 {
                 let w = encode_data(&d, &nwk, &app).unwrap();
                 roundtrip(&d, &w, &nwk, &app, col);
                 judge_bytes(&w, &nwk, &app, d.fcnt, "valid", rng, col);
+            }
+            "valid-rfu" => {
+                // authentic frames whose MHDR carries RFU bits: type and direction are still given
+                // by MType alone, so they authenticate and decode like any other frame
+                let d = gen_any_desc(rng);
+                let nwk: [u8; 16] = rng.arr();
+                let app: [u8; 16] = rng.arr();
+                let w = encode_data_rfu(&d, &nwk, &app, rng.range(1, 8) as u8).unwrap();
+                col.event("authentic_with_mhdr_rfu_bits");
+                roundtrip(&d, &w, &nwk, &app, col);
+                judge_bytes(&w, &nwk, &app, d.fcnt, "valid-rfu", rng, col);
             }
             "bitflip-all" => {
                 let mut d = gen_any_desc(rng);
